@@ -105,19 +105,22 @@ public:
     auto item_it = this->items.find(k);
     if (item_it == this->items.end()) {
       new_item_created = true;
-      item_it = this->items.emplace(k, size);
+      item_it = this->items.emplace(std::piecewise_construct,
+                               std::forward_as_tuple(k),
+                               std::forward_as_tuple(v, size))
+                    .first;
     }
 
     auto& i = item_it->second;
-    i.value = v;
     if (new_item_created) {
       i.key = &item_it->first;
       i.size = size;
-      i.total_size += size;
+      this->total_size += size;
       this->link_item(&i);
       return true;
 
     } else {
+      i.value = v;
       this->change_item_size(i, size);
       this->touch_item(i);
       return false;
